@@ -949,4 +949,72 @@ def twin (s : StructM) (e : EntryM) : MaskedM :=
     bitMask := e.bitMask, sign := e.sign, endianness := s.endianness, unit := e.unit
     representation := e.representation, pSelected := e.pSelected }
 
+/-- name-level view of what a `StructEntry` itself declares -/
+structure EntryV where
+  attr : AttrV
+  elem : ElemV
+  declared : Declared
+  pInvalidators : List Str
+  accessMode : AccessMode
+  cacheable : CachingMode
+  pollingTime : Option Nat
+  streamable : Bool
+  bitMask : BitMask
+  sign : Sign
+  unit : Option Str
+  representation : IntRepr
+  pSelected : List Str
+  deriving DecidableEq, Repr
+
+def StructEntryNode.view (st : St F) (e : StructEntryNode) : EntryV :=
+  { attr := e.attr.view st, elem := e.elem.view st, declared := e.declared
+    pInvalidators := e.pInvalidators.map (nameOf st), accessMode := e.accessMode
+    cacheable := e.cacheable, pollingTime := e.pollingTime, streamable := e.streamable
+    bitMask := e.bitMask, sign := e.sign, unit := e.unit, representation := e.representation
+    pSelected := e.pSelected.map (nameOf st) }
+
+def pureEntry (e : EntryM) : EntryV :=
+  { attr := pureAttr e.attr, elem := pureElem e.elem []
+    declared :=
+      { visibility := e.elem.visibility.isSome, isDeprecated := e.elem.isDeprecated.isSome
+        imposedAccessMode := e.elem.imposedAccessMode.isSome, streamable := e.streamable.isSome
+        accessMode := e.accessMode.isSome, cacheable := e.cacheable.isSome }
+    pInvalidators := e.pInvalidators
+    accessMode := e.accessMode.getD .ro, cacheable := e.cacheable.getD .writeThrough
+    pollingTime := e.pollingTime.map UintLit.val
+    streamable := (e.streamable.map BoolLit.val).getD false
+    bitMask := e.bitMask.val, sign := e.sign.getD .unsigned, unit := e.unit
+    representation := e.representation.getD .pureNumber, pSelected := e.pSelected }
+
+/-- the merge of `struct_reg.rs` on name-level views -/
+def mergeElemV (l r : ElemV) (d : Declared) : ElemV :=
+  { tooltip := mergeOpt l.tooltip r.tooltip
+    description := mergeOpt l.description r.description
+    displayName := mergeOpt l.displayName r.displayName
+    visibility := mergeDeclared d.visibility l.visibility r.visibility
+    docuUrl := mergeOpt l.docuUrl r.docuUrl
+    isDeprecated := mergeDeclared d.isDeprecated l.isDeprecated r.isDeprecated
+    eventId := mergeOpt l.eventId r.eventId
+    pIsImplemented := mergeOpt l.pIsImplemented r.pIsImplemented
+    pIsAvailable := mergeOpt l.pIsAvailable r.pIsAvailable
+    pIsLocked := mergeOpt l.pIsLocked r.pIsLocked
+    pBlockPolling := mergeOpt l.pBlockPolling r.pBlockPolling
+    imposedAccessMode := mergeDeclared d.imposedAccessMode l.imposedAccessMode r.imposedAccessMode
+    pErrors := mergeVec l.pErrors r.pErrors
+    pAlias := mergeOpt l.pAlias r.pAlias
+    pCastAlias := mergeOpt l.pCastAlias r.pCastAlias
+    pInvalidators := l.pInvalidators }
+
+def toMaskedV (e : EntryV) (reg : RegV) (endianness : Endianness) : MaskedV :=
+  { attr := e.attr
+    reg := { reg with
+      elemBase := mergeElemV reg.elemBase e.elem e.declared
+      streamable := mergeDeclared e.declared.streamable reg.streamable e.streamable
+      accessMode := mergeDeclared e.declared.accessMode reg.accessMode e.accessMode
+      cacheable := mergeDeclared e.declared.cacheable reg.cacheable e.cacheable
+      pollingTime := mergeOpt reg.pollingTime e.pollingTime
+      pInvalidators := mergeVec reg.pInvalidators e.pInvalidators }
+    bitMask := e.bitMask, sign := e.sign, endianness, unit := e.unit
+    representation := e.representation, pSelected := e.pSelected }
+
 end CamVerif.XmlParse
